@@ -144,15 +144,15 @@ pub fn budget_for(prop: &str, thorough: bool) -> Budget {
     }
     let units = match (prop, thorough) {
         ("C16", false) => 48_000,
-        ("C16", true) => 1_600_000,
+        ("C16", true) => 400_000,
         ("C17", false) => 6_400,
-        ("C17", true) => 200_000,
+        ("C17", true) => 50_000,
         ("C07", false) | ("C20", false) => 32_000,
-        ("C07", true) | ("C20", true) => 800_000,
+        ("C07", true) | ("C20", true) => 200_000,
         ("C13", false) => 32_000,
-        ("C13", true) => 800_000,
+        ("C13", true) => 200_000,
         (_, false) => 48_000,
-        (_, true) => 1_600_000,
+        (_, true) => 400_000,
     };
     Budget { units }
 }
